@@ -309,6 +309,8 @@ def t_verify(ctx, shard, nshards, n):
         ex.append(build(("pop", "PopVerify", 2 + i, b"", arm, 999 + i, i + 1, [766])))
     for i, su in enumerate(("basic", "pop", "basic", "pop")):
         ex.append(build((su, "Verify", 1000 * i + 11, b"canonical signature %d" % i, "canonical", 1 + i, 1, [3])))
+    for i, L in enumerate((64, 55, 56, 63, 65, 128)):          # SHA-256 block and padding boundaries
+        ex.append(build((sc.SUITES[i % 3], "Verify", 500 + i, bytes(range(L)), "canonical", 9, 2, [3])))
     # long messages whose hashed length sits on a 64 KiB boundary (65488 + 48 key bytes in the augmentation suite)
     for i, (su, L) in enumerate((("basic", 65536), ("aug", 65488), ("pop", 131072))):
         big = bytes((7 * q + i) % 251 for q in range(1024)) * (L // 1024 + 1)
